@@ -35,7 +35,9 @@ def Side.other : Side → Side
   | .B => .A
 
 /-- The link: the two peer IDs, the transport UUID under which each side mounted the link, and
-each controller's `maxHashes`. -/
+each controller's `maxHashes` — the limit the controller WORKS with (`NewController`: the configured
+`max_hashes`, 256 by default, clamped to `maxWireHashes`, the number of hashes one exchange
+message can carry; `Props.C30Hub.effMax`, `offered_list_fits_message`). -/
 structure Cfg where
   pA : Bytes
   pB : Bytes
